@@ -1415,6 +1415,22 @@ func (s *Sim) fairRounds(budget int, done func() bool) bool {
 				s.restartShard(h)
 			}
 		}
+		if round%4 == 3 {
+			// the engine's workers reload and rescan their nodes on a ticker
+			// (nodeReloadInterval); a replica started while its apply worker was
+			// handling another shard depends on it for its initial recovery
+			for _, h := range s.upHosts() {
+				if s.stalled(h.id) {
+					continue
+				}
+				for _, ev := range h.drv.Enabled(true) {
+					if ev.IsTicker() && h.busy[ev.Owner()] == nil && !s.ctx.Violated() {
+						s.execOption(option{kind: 1, host: h, ev: ev})
+						s.afterStep()
+					}
+				}
+			}
+		}
 		for guard := 0; guard < 5000 && !s.ctx.Violated(); guard++ {
 			opts := s.options(guard == 0)
 			if len(opts) == 0 {
